@@ -1034,8 +1034,11 @@ fn c12_check<K: KeyLike>(sut: &Sut<K>, kind: Kind, op: &Op, i: usize, out: &Out,
         if kind == Kind::Arc {
             let victims: Vec<u16> = before.lists[..2].iter().filter_map(|l| l.last().map(|e| e.0)).collect();
             let gone_residents: Vec<&u16> = expect.keys().filter(|kk| !r2.contains_key(kk) && !ghosts_before.contains(kk)).collect();
+            // only a put of a brand-new key trims the ghost lists; on an update or a ghost
+            // revival the victim stays remembered, so no resident entry may vanish there
+            let may_lose_victim = matches!(pr, PR::Put);
             ok = r2.iter().all(|(kk, vv)| expect.get(kk) == Some(vv))
-                && gone_residents.len() <= 1
+                && gone_residents.len() <= if may_lose_victim { 1 } else { 0 }
                 && gone_residents.iter().all(|kk| victims.contains(kk) && **kk != k);
         }
         if !ok {
